@@ -28,4 +28,6 @@ mod scanner;
 mod stack;
 mod utils;
 pub mod value;
+#[cfg(yarel_verif)]
+pub mod verif;
 pub mod vm;
